@@ -478,6 +478,28 @@ def hrnp_cases(ctx, L):
             ctx.fail("construct", {"pdu": "hrnp"}, f"cannot build / serialise an HRNP packet: {b}")
             continue
         packets.append(b)
+    # packets whose correct checksum has a single set bit: one inverted bit then makes the received
+    # checksum field 0x0000 (HRNP has no "zero means absent" rule: it must be detected like any other)
+    def ones_sum(data: bytes) -> int:
+        if len(data) % 2:
+            data += b"\x00"
+        t = sum(int.from_bytes(data[i:i + 2], "big") for i in range(0, len(data), 2))
+        while t >> 16:
+            t = (t & 0xFFFF) + (t >> 16)
+        return ~t & 0xFFFF
+
+    for payload, target in ((payloads[0], 0x0001), (payloads[1 % len(payloads)], 0x8000), (b"", 0x0100)):
+        tmpl = call(lambda: L.HRNP(data=payload, opcode=L.HRNPOpcodes.DATA, packet_number=0).as_bytes()) if payload else call(lambda: L.HRNP(opcode=L.HRNPOpcodes.CLOSE, packet_number=0).as_bytes())
+        if is_err(tmpl):
+            continue
+        pn = next((v for v in range(65536) if ones_sum(tmpl[0:6] + v.to_bytes(2, "big") + tmpl[8:10] + tmpl[12:]) == target), None)
+        if pn is None:
+            continue
+        o = call(L.HRNP, data=payload, opcode=L.HRNPOpcodes.DATA, packet_number=pn) if payload else call(L.HRNP, opcode=L.HRNPOpcodes.CLOSE, packet_number=pn)
+        b = call(lambda: o.as_bytes()) if not is_err(o) else o
+        if not is_err(b):
+            packets.append(b)
+            ctx.count("hrnp:packets-with-single-bit-checksum", int(b[10:12] == target.to_bytes(2, "big")))
     pairs = []
     for b in packets:
         o = call(L.HRNP.from_bytes, b)
